@@ -196,6 +196,17 @@ func mdataRollupHistory(rec *trace.Recorder, dir string, rng *rand.Rand, h int, 
 	}
 	var imgs []imgPt
 	if w != nil {
+		// the images are restarted and (some of them) written to again: names must resolve to the same ids there
+		if err := database.FlushMeta(); err != nil {
+			rec.Emit("Error", trace.F{"op": "FlushMeta", "err": err.Error()})
+			return
+		}
+		database.WaitFlushMetaCompleted()
+		if err := shard.FlushIndex(); err != nil {
+			rec.Emit("Error", trace.F{"op": "FlushIndex", "err": err.Error()})
+			return
+		}
+		shard.WaitFlushIndexCompleted()
 		w.AfterOp = func(n int, ev string) {
 			if ev != "ManifestAppend" {
 				return
@@ -311,8 +322,30 @@ func mdataRollupHistory(rec *trace.Recorder, dir string, rng *rand.Rand, h int, 
 		}
 		if database, _ = engine.GetDatabase(db); database != nil {
 			shard, _ = database.GetShard(models.ShardID(1))
-			if _, err := shard.GetOrCrateDataFamily(familyStart); err == nil {
-				check(fmt.Sprintf("image-after-commit-%d", im.n))
+			if fam, err := shard.GetOrCrateDataFamily(familyStart); err == nil {
+				label := fmt.Sprintf("image-after-commit-%d", im.n)
+				if im.n%3 != 1 {
+					// late data: after the restart one more file is flushed into the source family before the rollup
+					// runs again -- the files the killed rollup had already brought into a target must not be brought
+					// in a second time next to the new one
+					if err := fam.WriteRows(storageRows(rollupPoints(rng, familyStart)...)); err != nil {
+						rec.Emit("Error", trace.F{"op": "WriteRows(image)", "err": err.Error()})
+					} else if err := fam.Flush(); err != nil {
+						rec.Emit("Error", trace.F{"op": "Flush(image)", "err": err.Error()})
+					}
+					src2, _, err := storeBlocks(storesOf(db, "day"), uint32(metricID))
+					if err != nil {
+						rec.Emit("Error", trace.F{"op": "read source(image)", "err": err.Error()})
+					} else {
+						keep := source
+						source = src2
+						rec.Emit("Note", trace.F{"what": "one more source file flushed after the restart of the image"})
+						check(label + "-lateflush")
+						source = keep
+					}
+				} else {
+					check(label)
+				}
 			}
 		}
 		engine.Close()
